@@ -448,7 +448,7 @@ func c09MiscOps() []*c09Op {
 
 // payload alphabet: ordinary, space, line feed, the two markers, a multi-byte character, the empty payload,
 // and a few two/three character payloads
-var c09Strs = []string{"a", " ", "\n", vS, vE, "é", "", "x\ny", vS + "z" + vE}
+var c09Strs = []string{"a", " ", "\n", vS, vE, "é", "", "x\ny", vS + "z" + vE, "\ufffd", "q\ufffd"}
 
 // invalid UTF-8 payloads (well-formedness and line-safety only): the pieces of a marker, a marker followed by
 // a partial marker, a stray lead byte before a line feed
